@@ -4,11 +4,12 @@ import os
 
 from lib import vf, cbuild
 from gen import mframe
+from props import c11_sched
 
 ID = "C11"
 LEVEL = "proof"
 LEAN_MODULES = ["OsmoVerif.Props.C11"]
-DRIVER_MODULES = ["Mframe"]
+DRIVER_MODULES = ["Mframe", "TrxSched"]
 LEAN_MODEL_MODULES = ["OsmoVerif.Model.Mframe", "OsmoVerif.Spec.Mframe", "OsmoVerif.Lemmas.Mframe",
                       "OsmoVerif.Gen.FwMframe", "OsmoVerif.Gen.TrxconMframe"]
 ASSUMPTIONS = [
@@ -49,7 +50,7 @@ def gen(run):
 
 def tables(run):
     if getattr(run, "mf", None) is None:
-        run.mf = {"fw": mframe.dump_fw(run), "trxcon": mframe.dump_trxcon(run)}
+        run.mf = {"fw": mframe.dump_fw(run), "trxcon": mframe.dump_trxcon(run), "desc": mframe.dump_desc(run)}
     return run.mf
 
 
@@ -73,30 +74,6 @@ def build_trxcon(run):
     o2 = cbuild.obj(run, os.path.join(vf.ROOT, "harness/c/c11_trxcon_harness.c"), "c11_trxcon_harness", includes=inc)
     run.c11_trxcon = cbuild.link(run, [o2, o1], "c11_trxcon_harness.bin")
     return run.c11_trxcon
-
-
-SAN = ["-fsanitize=address,undefined", "-fno-sanitize-recover=all"]
-
-
-def build_sched(run):
-    """harness around the UNCHANGED sched_trx.c + sched_lchan_desc.c (own objects) and the #included
-    sched_mframe.c; clang ASan+UBSan; l1sched_mframe_layout wrapped at link time (guarded table copies)"""
-    if getattr(run, "c11_sched", None):
-        return run.c11_sched
-    mframe.trxcon_names(run)
-    mframe.sched_names(run)
-    inc = [run.scratch, mframe.SHIM_TRXSCHED, mframe.SHIM_TRXCON, mframe.TRXCON_INC]
-    flags = SAN + ["-O0"]
-    objs = [
-        cbuild.obj(run, os.path.join(vf.REPO, TRX_SCHED_SRC), "c11_sched_trx", flags=flags, includes=inc, compiler="clang"),
-        cbuild.obj(run, os.path.join(vf.REPO, mframe.TRXCON_DESC_C), "c11_sched_lchan_desc", flags=flags, includes=inc,
-                   compiler="clang"),
-        cbuild.obj(run, os.path.join(vf.ROOT, "harness/c/c11_sched_harness.c"), "c11_sched_harness",
-                   flags=flags + ['-DC11_SCHED_MFRAME_C="%s"' % os.path.join(vf.REPO, TRX_SRC)], includes=inc, compiler="clang"),
-    ]
-    run.c11_sched = cbuild.link(run, objs, "c11_sched_harness.bin", flags=SAN + ["-Wl,--wrap=l1sched_mframe_layout"],
-                                compiler="clang")
-    return run.c11_sched
 
 
 # ----------------------------------------------------------------------------
